@@ -495,13 +495,14 @@ def check_locale_arms(ctx, r, rid="R5"):
         r.missing("Interpolation::create_locale_impl / create_locale_string_impl")
         return False
     funcs = absint.file_funcs(ast, MV)
-    vals = {"en": Bloc(Lit(0), Var("var_x", FORMATTERS["number"]), Lit(2)), "fr": Bloc(Var("var_x", FORMATTERS["number"]), Lit(1)), "pt": Lit(0)}
-    counts = {"en": 3, "fr": 2, "pt": 5}
+    # (`es`: a value without literal text - its arm reads the table all the same: with dynamic_load + ssr the read is what registers the unit)
+    vals = {"en": Bloc(Lit(0), Var("var_x", FORMATTERS["number"]), Lit(2)), "fr": Bloc(Var("var_x", FORMATTERS["number"]), Lit(1)), "pt": Lit(0), "es": Var("var_x", FORMATTERS["number"])}
+    counts = {"en": 3, "fr": 2, "pt": 5, "es": 1}
 
     def loc(n):
         return CF("Locale", name=K(n), top_locale_name=K(n), keys=L(T(K("other"), Lit(1)), T(K("k"), vals[n])), strings=L(), top_locale_string_count=I(counts[n]))
     defaults = L(T(K("en"), L(K("de"), K("it"))), T(K("pt"), L(K("pt_BR"))))
-    fallback = {"en": ["de", "it"], "pt": ["pt_BR"], "fr": []}
+    fallback = {"en": ["de", "it"], "pt": ["pt_BR"], "fr": [], "es": []}
     bad = {}
     n = 0
     for fname, reader in (("create_locale_impl", read_view), ("create_locale_string_impl", read_string)):
@@ -516,7 +517,7 @@ def check_locale_arms(ctx, r, rid="R5"):
                                  "as_inner": lambda rv, a: rv[2][0] if rv[0] == "ctor" and rv[1] == "Set" else rv, "get_keys": get_keys})
             ev.path_builtins = {"Key::new": lambda a: C("Some", K(a[0][1]))}
             ev.totokens = lambda x: (absint.fields_of(x)["name"][1] if x[0] == "ctor" and x[1] == "Key" else (x[1] if x[0] == "ctor" and not x[2] and len(x) < 4 and x[1] not in ("None", "Some", "<default>") else None))
-            known = {"key": K("k"), "enum_ident": TOK("Locale"), "locales": L(loc("en"), loc("fr"), loc("pt")), "locale_type_ident": TOK("LocaleStrings"), "defaults": defaults}
+            known = {"key": K("k"), "enum_ident": TOK("Locale"), "locales": L(loc("en"), loc("fr"), loc("pt"), loc("es")), "locale_type_ident": TOK("LocaleStrings"), "defaults": defaults}
             got = ev.run_fn(fns[fname], [known.get(pn, K("_" + pn.replace("_field", ""))) for pn in fns[fname].params()])
             if isinstance(got, str):
                 raise Unknown("%s: %s" % (fname, got))
@@ -631,4 +632,51 @@ def check_display_new(ctx, r, rid="R4"):
         r.viol("%s:Interpolation::display_impl#new" % rid, bad, file=MI, line=fn.line)
     else:
         r.inst("Interpolation::display_impl (new, lazily loading client)", "3 generated arms: one per defining locale, widened by exactly its fallback locales, fetching that locale's own table into its own variant")
+    return True
+
+
+def check_display_new_server(ctx, r, rid="R5"):
+    """Interpolation::display_impl in the server configuration of lazily loaded translations (dynamic_load + ssr), where reading a
+    locale's string table registers that unit for embedding in the page: the generated `new` only stores the builder's locale - the table
+    is read (and the unit registered) by the `fmt` arm of the locale actually rendered, not for every locale that defines the key."""
+    ast = ctx.ast
+    fn = ast.fn(MI, "display_impl", impl_self="Interpolation")
+    if fn is None:
+        r.missing("Interpolation::display_impl")
+        return False
+    absint.set_program(ast)
+    vals = {"en": Lit(0), "fr": Lit(1), "pt": Lit(0)}
+    counts = {"en": 3, "fr": 2, "pt": 5}
+
+    def loc(n):
+        return CF("Locale", name=K(n), top_locale_name=K(n), keys=L(T(K("k"), vals[n])), strings=L(), top_locale_string_count=I(counts[n]))
+    defaults = L(T(K("en"), L(K("de"), K("it"))), T(K("pt"), L(K("pt_BR"))))
+    ev = AEval(funcs=absint.file_funcs(ast, MV))
+
+    def cfg(t):
+        t = t.replace(" ", "")
+        if 'notfeature="ssr"' in t or 'not(feature="ssr")' in t:
+            return False
+        return "dynamic_load" in t or t == 'feature="ssr"'
+    ev.cfg = cfg
+    ev.builtins.update({"unwrap_at": lambda rv, a: rv[2][0] if rv[0] == "ctor" and rv[2] else rv})
+    ev.path_builtins = {"Key::new": lambda a: C("Some", K(a[0][1])), "Self::create_locale_string_impl": lambda a: L(TOK("STRING_ARMS"))}
+    ev.totokens = lambda x: (absint.fields_of(x)["name"][1] if x[0] == "ctor" and x[1] == "Key" else None)
+    known = {"key": K("k"), "ident": TOK("Builder"), "display_struct_ident": TOK("DisplayStruct"), "enum_ident": TOK("Locale"), "locale_field": K("_locale"), "fields": L(),
+             "locales": L(loc("en"), loc("fr"), loc("pt")), "locale_type_ident": TOK("LocaleStrings"), "defaults": defaults}
+    missing = [p_ for p_ in fn.params() if p_ not in known]
+    if missing:
+        raise Unknown("display_impl has parameters the model does not know: %s" % missing)
+    got = ev.run_fn(fn, [known[p_] for p_ in fn.params()])
+    if isinstance(got, str) or got[0] != "tok":
+        raise Unknown("display_impl (dynamic_load + ssr): %s" % (got if isinstance(got, str) else absint.fmt(got)[:80]))
+    txt = re.sub(r"\s+", " ", got[1])
+    if "STRING_ARMS" not in txt:
+        raise Unknown("the generated Display impl does not contain the per-locale fmt arms: %s" % txt[-200:])
+    if "LocaleStrings" in txt:
+        k = txt.index("LocaleStrings")
+        r.viol("%s:Interpolation::display_impl#new-server" % rid, "with dynamic_load + ssr the generated code reads a string table outside the per-locale `fmt` arms (`.. %s ..`): reading a table registers "
+               "that unit for the page, so units of locales the request never rendered are embedded" % txt[max(0, k - 80):k + 80], file=MI, line=fn.line)
+    else:
+        r.inst("Interpolation::display_impl (new, dynamic_load + ssr)", "the generated `new` stores the builder's locale only; tables are read (units registered) in the fmt arm of the rendered locale")
     return True
